@@ -445,3 +445,22 @@ Theorem C09_inspect_current : forall d file first last title subs,
     Some (ncols_Z n, List.map sub_pair subs').
 Proof. exact inspect_pin. Qed.
 Print Assumptions C09_inspect_current.
+
+(* ---- the item stream of the normal engine IS the generator `items` as it stands today ----------------
+   Model/DataRead.normal_items (strip, comment test, substitutions, chr(26) removal, empty lines skipped,
+   splitting, end of section) equals, for every input, the generator nested in
+   reader.read_data_section_iterative_normal_engine re-translated on this run (py_engine_items: the list of
+   the values it yields; np.float64 is an operation of num_ops), and the array the engine reshapes is
+   np.array of that stream over Sections.body_lines (py_engine_array).  Proofs/FuncsPinEngine.v. *)
+Require Import FuncsPinEngine.
+Theorem C09_engine_items_current : forall (V F : Type) (nops : num_ops V F) d l first last subs,
+  py_engine_items nops l (Z.of_nat first) (Z.of_nat last) [ch_hash] (List.map sub_pair subs) (split_line d)
+  = List.map (tok_val nops) (normal_items d subs (firstn (last - first) l)).
+Proof. exact engine_items_pin. Qed.
+Theorem C09_engine_array_current : forall (V F A : Type) (nops : num_ops V F) (np_array : list (F + list N) -> A) d
+                                          file first last title subs,
+  py_engine_array nops np_array (skipn first file) (Z.of_nat first, Z.of_nat last) (List.map sub_pair subs) [ch_hash] (split_line d)
+  = np_array (List.map (tok_val nops) (normal_items d subs (body_lines file (mkspos first last title)))).
+Proof. exact engine_array_pin. Qed.
+Print Assumptions C09_engine_items_current.
+Print Assumptions C09_engine_array_current.
